@@ -8,6 +8,7 @@ part-way, a main thread that calls stop()/start() at seeded points,
 schedule perturbation through sys.monitoring LINE events on the listener's
 thread-coordination methods, and an offline oracle over the recorded history.
 """
+import functools
 import os
 import random
 import threading
@@ -259,6 +260,9 @@ def gen_case(rng, steer):
     }
     # the last callback is registered while the listener is running (own
     # generator: the schedules of earlier seeds stay what they were)
+    shape_rng = random.Random(cfg['beh_seed'] ^ 0xca11ab1e)
+    cfg['cb_shapes'] = [shape_rng.choice(['function', 'function', 'partial',
+                                          'object']) for _ in callbacks]
     cfg['late_cb'] = 1 if random.Random(
         cfg['beh_seed'] ^ 0x5ca1ab1e).random() < 0.35 else 0
     # senders already knocking while a start() that is going to fail sets up
@@ -431,6 +435,16 @@ def arrange_fault(run, kind, cert):
         run.blocker = b
 
 
+class CallableObject:
+    """A callback that is an object (no __name__)."""
+
+    def __init__(self, fn):
+        self.fn = fn
+
+    def __call__(self, indication, host):
+        return self.fn(indication, host)
+
+
 def remove_fault(run, cert):
     write_file(cert['certfile'], cert['cpem'])
     write_file(cert['keyfile'], cert['kpem'])
@@ -463,14 +477,26 @@ def execute(ctx, cfg, run):
     lis.queue_get_timeout = cfg['get_timeout']
     beh = behaviour_of(cfg)
     late = cfg.get('late_cb', 0)
+    shapes = cfg.get('cb_shapes') or ['function'] * ncb
+
+    def make_cb(k):
+        # any callable is a callback: a function, a functools.partial, an
+        # object with __call__ (the last two have no __name__)
+        fn = lk.make_callback(log, k, beh)
+        ctx.cls('callback-shape=' + shapes[k])
+        if shapes[k] == 'partial':
+            return functools.partial(fn)
+        if shapes[k] == 'object':
+            return CallableObject(fn)
+        return fn
     for k in range(ncb - late):
-        lis.add_callback(lk.make_callback(log, k, beh))
+        lis.add_callback(make_cb(k))
 
     def register_late(when):
         # before any sender of this listener life is started: every
         # acknowledged indication is owed to all ncb callbacks
         for k in range(ncb - late, ncb):
-            lis.add_callback(lk.make_callback(log, k, beh))
+            lis.add_callback(make_cb(k))
         log.add('late-callback', when=when, n=late)
         ctx.count('callback-registered-' + when)
     late_pending = late > 0
